@@ -12,7 +12,8 @@
 (***************************************************************************)
 EXTENDS AsmCore, Json
 
-CONSTANTS MaxLines,     \* maximum number of source lines
+CONSTANTS PoolSel,      \* "core": semantic pool; "hyg": text-hygiene pool (quotes, backslashes, \s, hex)
+          MaxLines,     \* maximum number of source lines
           MaxDepth,     \* maximum block nesting
           Export,       \* TRUE: print one JSON case per complete program
           Theorem       \* TRUE: evaluate the design theorem on every complete program
@@ -26,7 +27,7 @@ vars == <<prog, ist, rst, meta>>
 
 Names == {"x", "y"}
 
-MCSigma == {"a", "b", "\n"}
+MCSigma == IF PoolSel = "core" THEN {"a", "b", "\n"} ELSE {"a", "\"", "\\", " "}
 MCDev   == {}
 MCCfg   == [unix |-> NoPattern, windows |-> NoPattern]
 
@@ -48,13 +49,34 @@ PoolCore == <<
     RT("b*",       One(Q("star", Lb))),
     RT("a?b",      << <<Q("opt", La), Lb>> >>),
     RT("(?:a|b)b", << <<Grp(<< <<La>>, <<Lb>> >>), Lb>> >>),
+    RT("(?:a|b)a|b(?:a|b)", << <<Grp(<< <<La>>, <<Lb>> >>), La>>, <<Lb, Grp(<< <<La>>, <<Lb>> >>)>> >>),
     RT(".",        One(Dot)),
     RT("^a",       << <<Bol, La>> >>),
     RT("b$",       << <<Lb, Eol>> >>),
     RT("\\n",      One(Lit("\n")))
 >>
 
-Pool == PoolCore
+Lq == Lit("\"")  Lbs == Lit("\\")  Lsp == Lit(" ")
+PoolHyg == <<
+    RT("a",          One(La)),
+    RT("\"",         One(Lq)),
+    RT("\\\"",       One(Lq)),
+    RT("\\\\",       One(Lbs)),
+    RT("\\\\\"",     << <<Lbs, Lq>> >>),
+    RT("\\x5c",      One(Lbs)),
+    RT("\\x22a",     << <<Lq, La>> >>),
+    RT("a\"a",       << <<La, Lq, La>> >>),
+    RT("[\\s -/]",   One(Cls({" ", "\""}))),
+    RT("\\s",        One(Cls({" "}))),
+    RT("[^\\s]",     One(NCls({" "}))),
+    RT("a.",         << <<La, Dot>> >>),
+    RT("^\"",        << <<Bol, Lq>> >>),
+    RT("\\\\$",      << <<Lbs, Eol>> >>),
+    RT("[\"\\\\]",    One(Cls({"\"", "\\"}))),
+    RT("\\\\|\"",     << <<Lbs>>, <<Lq>> >>)
+>>
+
+Pool == IF PoolSel = "core" THEN PoolCore ELSE PoolHyg
 
 Words == << "a", "ab", "b.a", "ba@", "a b" >>   \* command words for cmdline blocks
 
